@@ -441,7 +441,8 @@ class Network(Cached):
         :arg  edge_list: [[i,j]] for edges i -> j
         """
         #  Convert to Numpy array and get number of nodes
-        edges = np.array(edge_list)
+        #  (an empty edge list must still have two columns)
+        edges = np.array(edge_list, dtype=int).reshape(-1, 2)
 
         if n_nodes is None:
             N = edges.max() + 1
@@ -623,7 +624,8 @@ class Network(Cached):
         directed = graph.is_directed()
 
         #  Extract edge list
-        edges = np.array(graph.get_edgelist())
+        #  (an empty edge list must still have two columns)
+        edges = np.array(graph.get_edgelist(), dtype=int).reshape(-1, 2)
 
         #  Symmetrize if undirected network
         if not directed:
